@@ -64,7 +64,7 @@ CFG = {
                 "invalid-JSON defect were repaired by fix: commits; the theorems are about the fixed code.",
         "technique": "Lean 4 proof (totality by bounds reasoning over checked accesses, round trips by induction) + differential correspondence",
     },
-    "props_modules": ["FileD.Props.C12"],
+    "props_modules": ["FileD.Props.C12", "FileD.Props.C12F", "FileD.Props.C12J"],
     "nontrivial": c12_nontrivial,
     "classify": c12_classify,
     "rule": "per format: every string over the format's delimiter alphabet (4-8 letters, incl. multi-byte tokens) up to length 4-9 "
